@@ -227,7 +227,57 @@ class Sweep:
             if not _in_repo(e):
                 raise
             self.viol('response_raised_after_sweep', {'error': _tb(e)}, exc=type(e).__name__)
+        self.second_point(spec, m, sin, sout, seeds)
         return self.result()
+
+    def second_point(self, spec, m, sin, sout, seeds):
+        """the same (by now much used) object at a second admissible input: its sensitivities must equal those of a
+        fresh object evaluated once at that input (the adjoint property does not depend on what the object did before)"""
+        if self.desc['fam'] == 'Scaling' and self.desc.get('mode') == 'objective':
+            return      # documented memory: normalises by its first value
+        if self.desc.get('scaling', 'none') != 'none':
+            return      # the harness froze the aggregation scaling on the used object
+        x2 = [inp.perturbed(inp.dirs[len(inp.dirs) // 2][1], 0.05) if inp.dirs else inp.fresh() for inp in spec.inputs]
+        label, objs, dens = seeds[[sd[0] for sd in seeds].index('generic_all_outputs')]
+
+        def cycle(mod, si, so):
+            for s_, v in zip(si, x2):
+                s_.state = ms.copy_obj(v)
+            mod.response()
+            for s_, o in zip(so, objs):
+                s_.sensitivity = ms.copy_obj(o)
+            mod.sensitivity()
+            g = [ms.dense(s_.sensitivity) for s_ in si]
+            y = flat_out([s_.state for s_ in so])
+            mod.reset()
+            return g, y
+        try:
+            g_used, y_used = cycle(m, sin, sout)
+            m2, sin2, sout2 = spec.make()
+            g_new, y_new = cycle(m2, sin2, sout2)
+        except Exception as e:  # noqa
+            if not _in_repo(e):
+                raise
+            self.viol('second_point_raised', {'error': _tb(e)}, exc=type(e).__name__)
+            return
+        for i, (a, b) in enumerate(zip(g_used, g_new)):
+            self.nchecks += 1
+            if (a is None) != (b is None):
+                z = a if a is not None else b
+                if np.any(z != 0):
+                    self.viol('second_point_sensitivity_differs_from_fresh', {'input': i, 'used': a, 'fresh': b}, input=i)
+                continue
+            if a is None:
+                continue
+            sc = max(float(np.max(np.abs(b))) if b.size else 0.0, 1e-300)
+            if a.shape != b.shape or (a.size and float(np.max(np.abs(a - b))) > 1e-8 * sc + 1e-12):
+                self.viol('second_point_sensitivity_differs_from_fresh',
+                          {'input': i, 'used': a, 'fresh': b, 'x2': [ms.dense(v) for v in x2]}, input=i)
+        for a, b in zip(y_used, y_new):
+            self.nchecks += 1
+            sc = max(float(np.max(np.abs(b))) if b.size else 0.0, 1e-300)
+            if a.shape != b.shape or (a.size and float(np.max(np.abs(a - b))) > 1e-8 * sc + 1e-12):
+                self.viol('second_point_state_differs_from_fresh', {'used': a, 'fresh': b})
 
     def derivative(self, spec, m, sin, sout, i, inp, Vd, y0f):
         def Y(t):
